@@ -367,7 +367,10 @@ func c12Handoff(c *Ctx, la *lockAnalysis) {
 
 // c12Guarded: guarded-by table.
 func c12Guarded(c *Ctx, la *lockAnalysis) {
-	const rule = "R4-guarded-by"
+	guardedBy2(c, la, "R4-guarded-by", guardedFields, guardExceptions, 40)
+}
+
+func guardedBy2(c *Ctx, la *lockAnalysis, rule string, guardedFields map[string]guardSpec, guardExceptions map[string]string, floor int) {
 	n := 0
 	for _, fn := range c.P.ProdFuncs() {
 		if deadInProduction(c.P, fn) {
@@ -452,7 +455,7 @@ func c12Guarded(c *Ctx, la *lockAnalysis) {
 			}
 		}
 	}
-	c.floor(rule, n, 40, "accesses to guarded fields")
+	c.floor(rule, n, floor, "accesses to guarded fields")
 }
 
 func c12Close(c *Ctx, la *lockAnalysis) {
